@@ -14,6 +14,16 @@ CHECKS = ("sem", "edges", "nodup")
 SIGS = ("semantics", "edge-delivery", "edge-altered", "duplicated", "plumbing")
 
 CORPUS = [
+    # None (and other non-integer values) are elements like any other: combining nodes must not read them as "nothing yet"
+    {"mode": "sync", "nodes": [{"kind": "source", "ups": []}, {"kind": "source", "ups": []}, {"kind": "combine_latest", "ups": [0, 1], "emit_on": None},
+                               {"kind": "sink", "mode": "sync", "f": ["id"], "ups": [2]}],
+     "ops": [{"op": "emit", "node": 0, "val": 3, "md": []}, {"op": "emit", "node": 1, "val": 10, "md": []}, {"op": "emit", "node": 0, "val": None, "md": []},
+             {"op": "emit", "node": 1, "val": 20, "md": []}, {"op": "emit", "node": 0, "val": 5, "md": []}, {"op": "emit", "node": 1, "val": None, "md": []}]},
+    {"mode": "sync", "nodes": [{"kind": "source", "ups": []}, {"kind": "source", "ups": []}, {"kind": "zip_latest", "ups": [0, 1]},
+                               {"kind": "zip", "ups": [0, 1], "literals": []}, {"kind": "union", "ups": [2, 3]}, {"kind": "sliding_window", "ups": [4], "n": 2, "partial": True},
+                               {"kind": "sink", "mode": "sync", "f": ["id"], "ups": [5]}],
+     "ops": [{"op": "emit", "node": 0, "val": None, "md": []}, {"op": "emit", "node": 1, "val": None, "md": []}, {"op": "emit", "node": 0, "val": 0, "md": []},
+             {"op": "emit", "node": 1, "val": "", "md": []}, {"op": "emit", "node": 0, "val": None, "md": []}, {"op": "emit", "node": 1, "val": 7, "md": []}]},
     # slice with start % step != 0 (repaired defect ee71f4f)
     {"mode": "sync", "nodes": [{"kind": "source", "ups": []}, {"kind": "slice", "ups": [0], "start": 1, "end": None, "step": 2},
                                {"kind": "sink", "mode": "sync", "f": ["id"], "ups": [1]}],
@@ -32,6 +42,9 @@ def run(ctx):
     ctx.audit(extra_modules=EXTRA)
     n = 400 if not ctx.thorough() else 12000
     graphcheck.run_family(ctx, n, ASPECTS, CHECKS, SIGS, corpus=CORPUS)
+    # one emission in eight is not an integer (None, a string, a tuple, a list): type-agnostic nodes pass them on like anything else,
+    # the others raise what the model says they raise
+    graphcheck.run_family(ctx, n // 4, ASPECTS, CHECKS, SIGS, p_weird=0.12)
     ctx.coverage["rule"] = (
         "corpus + seeded structured generator (harness/gen_graph.py): pipelines of 2-9 nodes over the synchronous catalogue with fan-out, "
         "fan-in, several entry points, boundary parameters, a feedback-through-unique template; ops generated online (emissions over a "
